@@ -145,6 +145,15 @@ def run(chk):
             return None
 
         viol2 = []
+        _builds = {}
+
+        def builds(g_, flag):
+            """g_ is the builder of the cache guarded by `flag` (it is the function that sets the flag): what it reads of its
+            own half-built cache (an earlier row of a table filled by recurrence, say) is part of building it"""
+            key = g_["fid"]
+            if key not in _builds:
+                _builds[key] = {p_[1] for p_, h_, n_ in E.function_writes_local(g_) if p_[0] == "this" and len(p_) >= 2 and p_[1] in flags and lit_value(write_rhs(n_)) == "true"}
+            return flag in _builds[key]
 
         def transfer2(node, st, ctx):
             d = dict(st)
@@ -160,7 +169,7 @@ def run(chk):
                             viol2.append((ctx.f, node, "cache member %s written while its ready flag is set: %s" % (path[1], pp(node))))
             if k == "mem" and is_this_mem(node) and node["field"] in cache_flag:
                 mode = ctx.flow.access_mode.get(id(node), "read")
-                if mode == "read" and d.get(cache_flag[node["field"]], "?") is not True:
+                if mode == "read" and d.get(cache_flag[node["field"]], "?") is not True and not builds(ctx.f, cache_flag[node["field"]]):
                     viol2.append((ctx.f, node, "cache member %s read where ready flag %s is not known to be set"
                                   % (node["field"], cache_flag[node["field"]])))
             return [tuple(sorted(d.items()))]
